@@ -13,11 +13,11 @@ use serde_json::{Value, json};
 use std::collections::HashMap;
 use std::sync::Arc;
 
-pub const BEHAVIOURS: &[&str] = &["nil", "string", "syntax-error", "runtime-error", "no-validate", "returns-number", "returns-table", "returns-boolean"];
+pub const BEHAVIOURS: &[&str] = &["nil", "string", "syntax-error", "runtime-error", "no-validate", "returns-number", "returns-table", "returns-boolean", "stateful-nil"];
 const FILES: &[&str] = &["a.py", "sub/b.py"];
 
 fn ok_behaviour(b: usize) -> bool {
-    b < 2
+    b < 2 || BEHAVIOURS[b] == "stateful-nil"
 }
 
 const PRELUDE: &str = r#"
@@ -55,6 +55,9 @@ impl Kit {
             "returns-number" => "function validate(ctx, content)\n  log(ctx, content)\n  return 42\nend\n".to_string(),
             "returns-table" => "function validate(ctx, content)\n  log(ctx, content)\n  return {}\nend\n".to_string(),
             "returns-boolean" => "function validate(ctx, content)\n  log(ctx, content)\n  return true\nend\n".to_string(),
+            // Keeps state outside validate(): every block gets a fresh interpreter, so the counter
+            // is 1 on every call and the script passes; a reused interpreter makes it complain.
+            "stateful-nil" => "local calls = 0\nfunction validate(ctx, content)\n  log(ctx, content)\n  calls = calls + 1\n  if calls > 1 or PREVIOUS ~= nil then\n    return \"interpreter state leaked between blocks\"\n  end\n  PREVIOUS = ctx.attrs.id\n  return nil\nend\n".to_string(),
             _ => unreachable!(),
         };
         for b in BEHAVIOURS {
@@ -365,7 +368,7 @@ pub fn prepare_env() {
 
 pub fn run(cfg: &Cfg, sink: &Arc<Sink>) -> Report {
     prepare_env();
-    let mut report = Report::new("states = block sets: per block a script behaviour ∈ {nil, string, syntax error, runtime error, no validate, returns number/table/boolean} and a file ∈ {a.py, sub/b.py}; for every state every schedule is executed: all delivery orders of the check-lua JoinSet, all orders of the runner's thread bodies, all iteration orders of the block map (E2, choice-prefix DFS over the seams, real code re-executed per schedule); scripts append a call record (id, file, line, sorted attributes, content), so calls are counted and arguments compared; oracle: no failing block ⇒ every block called exactly once with faithful arguments, nil ⇒ no diagnostic, string ⇒ exactly one carrying it; any failing block ⇒ the run fails in every schedule, each block called at most once; plus content/pattern/attribute cases and large sets (8/16/40 blocks) under identity, reverse and rotation delivery orders; non-trivial = every non-empty block set");
+    let mut report = Report::new("states = block sets: per block a script behaviour ∈ {nil, string, syntax error, runtime error, no validate, returns number/table/boolean, nil with module-level state} and a file ∈ {a.py, sub/b.py}; for every state every schedule is executed: all delivery orders of the check-lua JoinSet, all orders of the runner's thread bodies, all iteration orders of the block map (E2, choice-prefix DFS over the seams, real code re-executed per schedule); scripts append a call record (id, file, line, sorted attributes, content), so calls are counted and arguments compared; oracle: no failing block ⇒ every block called exactly once with faithful arguments, nil ⇒ no diagnostic, string ⇒ exactly one carrying it; any failing block ⇒ the run fails in every schedule, each block called at most once; plus content/pattern/attribute cases and large sets (8/16/40 blocks) under identity, reverse and rotation delivery orders; non-trivial = every non-empty block set");
     report.assume("tokio's JoinSet contract (join_next yields each spawned task's result once) is trusted; the seam replaces completion order by an explorer-chosen delivery order");
     report.assume("schedules inside one script body are not explored (bodies share only an immutable Arc)");
     let max_k = cfg.tier.pick(3, 4);
@@ -375,9 +378,9 @@ pub fn run(cfg: &Cfg, sink: &Arc<Sink>) -> Report {
     // Thorough k=4: restrict the behaviours of the 4th block to keep the space tractable.
     report.phase(engine::explore(
         "block sets × all schedules",
-        &format!("all sequences of ≤{max_k} blocks over 8 behaviours × 2 files; per state all map orders × all schedules of the seams (no deviation bound)"),
+        &format!("all sequences of ≤{max_k} blocks over 9 behaviours × 2 files; per state all map orders × all schedules of the seams (no deviation bound)"),
         Sequences {
-            alphabet: 16,
+            alphabet: (BEHAVIOURS.len() * 2) as u8,
             max_len: max_k,
             check: move |seq: &[u8], sink: &Sink| {
                 if seq.len() == 4 && (seq[3] / 2) % 3 != 0 {
